@@ -159,3 +159,11 @@ package types
 //@ iface func (s CommitStore) SetPruning(opts PruningOptions)
 //@   modifies sp.calls, sp.recent, sp.every
 //@   ensures sp.calls == old(sp.calls) + 1 && sp.recent == opts.keepRecent && sp.every == opts.keepEvery
+
+// a substore's Commit saves its next version (ASSUMED of every CommitStore; proved for iavl.Store and
+// transient.Store in their packages in terms of tree.cur / the zero id)
+//@ iface func (s CommitStore) Commit() (id CommitID)
+//@   modifies sub.ver
+//@   ensures sub.ver == upd(old(sub.ver), s, old(sub.ver[s]) + 1) && id.Version == sub.ver[s]
+//@ iface func (s CommitStore) GetStoreType() (r StoreType)
+//@   ensures true
